@@ -262,7 +262,6 @@ func (t *sysTranslator) translate() (labels []string, bad string) {
 			t.pulled[q] = append(t.pulled[q], f)
 		case "fs.pull.err":
 			v = "VFsPullErr"
-			t.iterErr[q] = t.errSeq[q]
 			t.fsErr[q] = true
 		case "fs.end":
 			v = "VFsEnd"
@@ -399,6 +398,9 @@ func (t *sysTranslator) translate() (labels []string, bad string) {
 		case "res.stat":
 			v = "VResStat"
 		case "res.err":
+			if a.kind == "fs" {
+				t.iterErr[q] = t.errSeq[q] // the iterator's failure is recorded here: this is its number
+			}
 			v = "VResErr " + coqZ(t.errSeq[q])
 			t.errSeq[q]++
 		case "td.filesdone":
